@@ -637,6 +637,64 @@ fn exec_call_inner(ctx: &mut Ctx, idx: usize, c: &Value, keep: &mut Option<Owned
             }
             v
         }
+        (_, "proc_in_thread") => {
+            // a procfs operation made by a thread that is not the thread-group leader: "self" is the process, "thread-self"
+            // the calling thread.  The handle (Rust API) is created by the leader and used by the thread.
+            let base_s = s(c, "base").to_string();
+            let cbase = c.get("cbase").and_then(|v| v.as_u64()).unwrap_or(0);
+            let what = s(c, "what").to_string();
+            let fl = c["oflags"].as_i64().unwrap_or(0) as i32;
+            let use_c = api == "c";
+            let target = path.to_path_buf();
+            let handle = if use_c { None } else {
+                match ProcfsHandle::new() {
+                    Ok(h) => Some(h),
+                    Err(e) => return kind_json(&e),
+                }
+            };
+            let th = std::thread::spawn(move || -> Value {
+                let tid = unsafe { libc::syscall(libc::SYS_gettid) } as i64;
+                let mut out = if use_c {
+                    let p = cs(&target);
+                    if what == "readlink" {
+                        let mut buf = vec![0u8; 4096];
+                        let r = unsafe { pathrs_proc_readlink(cbase, p.as_ptr(), buf.as_mut_ptr() as *mut c_char, buf.len()) };
+                        if r >= 0 { json!({"ok": true, "body": String::from_utf8_lossy(&buf[..std::cmp::min(r as usize, buf.len())])}) } else { capi_error(r) }
+                    } else {
+                        let r = unsafe { pathrs_proc_open(cbase, p.as_ptr(), fl) };
+                        if r >= 0 {
+                            let v = describe_fd(r);
+                            unsafe { libc::close(r) };
+                            v
+                        } else {
+                            capi_error(r)
+                        }
+                    }
+                } else {
+                    let h = handle.as_ref().unwrap();
+                    let base = base_of(&base_s);
+                    match what.as_str() {
+                        "readlink" => match h.readlink(base, &target) {
+                            Ok(p) => json!({"ok": true, "body": p.to_string_lossy()}),
+                            Err(e) => kind_json(&e),
+                        },
+                        "open_follow" => match h.open_follow(base, &target, OpenFlags::from_bits_retain(fl)) {
+                            Ok(f) => describe_fd(f.as_raw_fd()),
+                            Err(e) => kind_json(&e),
+                        },
+                        _ => match h.open(base, &target, OpenFlags::from_bits_retain(fl)) {
+                            Ok(f) => describe_fd(f.as_raw_fd()),
+                            Err(e) => kind_json(&e),
+                        },
+                    }
+                };
+                out["tid"] = json!(tid);
+                out
+            });
+            let mut out = th.join().unwrap_or(json!({"ok": false, "panic": "thread panicked"}));
+            out["pid"] = json!(unsafe { libc::getpid() });
+            out
+        }
         (_, "reopen_in_thread") => {
             // the calling thread has its own descriptor table (unshare(CLONE_FILES)); the thread-group
             // leader holds *other* files at the descriptor numbers the thread is about to get
